@@ -367,6 +367,11 @@ def main(chk):
     c20.rule_stepper_check_scope(chk)
     # the d_/s_ names an equation is validated against (and bound with) are computed from that equation, not remembered per class name (rule shared with C20)
     c20.rule_no_shortcut(chk)
+    # the equations a scheme lists reach the generated code through MegaGroup._make_data: every destination gets its own equations, in the order listed (model run shared with C03)
+    spec03 = importlib.util.spec_from_file_location('c03mod', os.path.join(os.path.dirname(os.path.abspath(__file__)), 'c03.py'))
+    c03 = importlib.util.module_from_spec(spec03)
+    spec03.loader.exec_module(c03)
+    c03.rule_regroup(chk)
     chk.floor('Scheme subclasses', len(schemes), 17)
     total_cfg = 0
     total_sites = 0
